@@ -34,13 +34,42 @@ def proj_of(facts, fn_term, outer_caps=None):
             return None
         r = cl.term_local(0)
         caps = fn_term[3]
+        if isinstance(r, tuple) and len(r) == 2 and r[0] == "var":
+            # a closure with several returns, e.g. `match map.get(k) { Some(v) => Ok(v), None => Err(..) }`: the value is the Ok payload
+            alts = cl.var_alts(r[1])
+            oks = [a for a in alts if isinstance(a, tuple) and a and a[0] == "agg" and a[2].endswith("Result::Ok")]
+            errs = [a for a in alts if isinstance(a, tuple) and a and a[0] == "agg" and a[2].endswith("Result::Err")]
+            if len(oks) == 1 and len(oks) + len(errs) == len(alts):
+                r = oks[0][3][0]
+        elif isinstance(r, tuple) and r and r[0] == "agg" and r[2].endswith("Result::Ok"):
+            r = r[3][0]
         return _proj_from(peel(r, transparent=ID_CALLS), ("param", 2), caps, facts)
     return None
 
 
+FALLIBLE = ["Option::ok_or_else", "Option::ok_or", "Try::branch", "Option::map", "Result::map", "Option::copied", "Option::cloned", "Result::ok", "Option::as_ref", "Option::as_deref"]
+
+
+def _unwrap_payload(r, stop=None):
+    """Strip what only carries a looked-up value to where it is used: `x?`, `.ok_or_else(..)`, `.map(as_ref)`, the payload of Some/Ok/Continue
+    (never past `stop`, the loop element / closure argument itself)."""
+    for _ in range(12):
+        r = peel(r, transparent=ID_CALLS)
+        if stop is not None and (r == stop or peel(r) == stop):
+            return r
+        if isinstance(r, tuple) and len(r) == 3 and r[0] == "field" and str(r[2]) == "0" and isinstance(r[1], tuple) and r[1][0] == "downcast" and r[1][2] in ("Some", "Ok", "Continue"):
+            r = r[1][1]
+            continue
+        if is_call(r, FALLIBLE) and r[2]:
+            r = r[2][0]
+            continue
+        break
+    return r
+
+
 def _proj_from(r, arg, caps, facts):
     """r expressed as a projection of `arg` (closure parameter or loop element)."""
-    r = peel(r, transparent=ID_CALLS)
+    r = _unwrap_payload(r, arg)
     if r == arg or peel(r) == arg:
         return ()
     # map[arg] / map.get(arg).unwrap()
@@ -49,6 +78,9 @@ def _proj_from(r, arg, caps, facts):
         if caps is not None and isinstance(m, tuple) and len(m) == 3 and m[0] == "field" and peel(m[1]) == ("param", 1) and str(m[2]).isdigit() and int(m[2]) < len(caps):
             m = peel(caps[int(m[2])], transparent=ID_CALLS)
         return (("lookup", m),)
+    # a getter applied to the element: f(arg)
+    if isinstance(r, tuple) and r and r[0] == "call" and len(r[2]) == 1 and peel(r[2][0], transparent=ID_CALLS) == arg:
+        return (("get", strip_generics(r[1]).split("::")[-1]),)
     # format!("${}", arg): the pieces constant and one display argument
     consts = [s for s in subterms(r) if isinstance(s, tuple) and s and s[0] == "const" and isinstance(s[1], str) and s[1].startswith('b"')]
     disp = [s for s in subterms(r) if isinstance(s, tuple) and s and s[0] == "call" and is_call(s, "Argument::new_display")]
@@ -70,6 +102,18 @@ def iter_seq(b, t, depth=0):
         return None if a is None or c is None else a + c
     if is_call(t, ["iter::once", "std::iter::once", "core::iter::once"]) and len(t[2]) == 1:
         return [("elem", peel(t[2][0], transparent=ID_CALLS))]
+    if is_call(t, "Iterator::flat_map") and len(t[2]) == 2:
+        # `opt.iter().flat_map(|m| m.keys())`: all keys of the map when there is one
+        src = _strip(t[2][0])
+        fn = t[2][1]
+        if is_call(src, ["Option::iter", "IntoIterator::into_iter"]) and isinstance(fn, tuple) and fn and fn[0] == "agg" and fn[1] == "closure":
+            cl = f.closure(fn[2])
+            if cl is not None:
+                r = _strip(cl.term_local(0))
+                if is_call(r, ["HashMap::keys", "HashMap::values", "BTreeMap::keys", "slice::iter", "Vec::iter", "IntoIterator::into_iter"]) and peel(r[2][0], transparent=ID_CALLS) == ("param", 2):
+                    opt = peel(src[2][0], transparent=ID_CALLS)
+                    return [("each", ("field", ("downcast", opt, "Some"), "0"), (), t[3])]
+        return None
     if is_call(t, "Iterator::map") and len(t[2]) == 2:
         sub = iter_seq(b, t[2][0], depth + 1)
         p = proj_of(f, t[2][1])
